@@ -90,7 +90,7 @@ PROPS = {
                  ">=2 capabilities (OPEN), or NOTIFICATION data; distinct by recipe hash"),
         "assumptions": ["path identifiers are compared only for families with ADD-PATH on (otherwise not on the wire)"],
         "units": [
-            {"pkg": B, "test": "TestVerifC04", "quick": (12, 25000), "thorough": (16, 2000000)},
+            {"pkg": B, "test": "TestVerifC04", "quick": (12, 40000), "thorough": (16, 2000000)},
         ],
     },
     "C07": {
